@@ -54,6 +54,15 @@ pub fn run(ctx: &Ctx) -> Report {
         let w = kind.word_bits();
         let wb = w / 8;
         let mut rng = Rng::derive(ctx.seed, 0xC02 + w as u64 * 7 + kind.buffered() as u64 + if e == En::BE { 0 } else { 5000 });
+        // ---- (0) a run of more than 2^32 zeros: read_unary over it, skip_bits over it (sparse backend) ----
+        if ctx.tier != Tier::Tiny {
+            let xs: Vec<u64> = if ctx.tier == Tier::Thorough { vec![(1 << 32) + 3, (1 << 32) - 1, (1 << 33) + 77] } else { vec![(1 << 32) + 3 + (ctx.seed % 64)] };
+            for x in xs {
+                for mode in [0u8, 1] {
+                    super::huge::check_read(e, if kind.buffered() { w } else { 0 }, x, mode, rep);
+                }
+            }
+        }
         let nbytes = ((5 * w + 3 + 192) / 8).div_ceil(wb) * wb + wb;
         let backends_all = RBackend::ALL;
         // ---- (1) every buffer state x every next operation ----
@@ -221,5 +230,8 @@ pub fn run(ctx: &Ctx) -> Report {
 }
 
 pub fn replay(case: &str, rep: &mut Report) {
+    if case.starts_with("huge=") {
+        return super::huge::replay(case, rep);
+    }
     check("C02", &RCase::from_kv(case), rep, true);
 }
